@@ -20,11 +20,11 @@ def gen_histories(ctx, kind, N, K, G):
     finally:
         os.unlink(os.path.join(core.SPEC, cfg))
     ctx.add_tlc(r)
-    out = ctx.path("hist_%s.ndjson" % kind)
+    out = ctx.path("hist_%s_%d_%d_%d.ndjson" % (kind, N, K, G))
     with open(out, "w") as f:
         for o in r.outs:
             f.write(json.loads(o) + "\n")
-    ctx.extra.setdefault("histories_enumerated", {})[kind] = len(r.outs)
+    ctx.extra.setdefault("histories_enumerated", {})["%s_N%d_K%d_G%d" % (kind, N, K, G) if not ctx.quick else kind] = len(r.outs)
     return out
 
 def model_check(ctx):
@@ -41,10 +41,12 @@ def model_check(ctx):
 def run(ctx):
     q = ctx.quick; s = ctx.seed
     model_check(ctx)
-    plans = [("c64", 4 if q else 5, 2, 1), ("off", 4 if q else 5, 2, 8), ("rc", 5, 1, 3)]
+    # thorough: offset histories of length 5 over the full alphabet (21 letters: 4.1 M histories x 7 worlds) exhaust TLC's heap per trace file;
+    # the thorough tier therefore takes length 4 over the full alphabet AND length 5 over a 13-letter alphabet (4 groups, 1 delta)
+    plans = [("c64", 4, 2, 1), ("off", 4, 2, 8), ("rc", 5, 1, 3)] if q else [("c64", 5, 2, 1), ("off", 4, 2, 8), ("off", 5, 1, 4), ("rc", 5, 1, 3)]
     jobs = []
     exe = core.build("plain", ("hist",))
-    for kind, N, K, G in plans:
+    for pi, (kind, N, K, G) in enumerate(plans):
         hist = gen_histories(ctx, kind, N, K, G)
         worlds = []
         if kind == "c64":
@@ -63,7 +65,7 @@ def run(ctx):
         for wi, w in enumerate(worlds):
             for sh in range(nshard):
                 a = dict(w); a.update({"in": hist, "K": K, "G": G, "skip": sh, "stride": nshard})
-                jobs.append({"args": a, "out": ctx.path("t_%s_%d_%d.ndjson" % (kind, wi, sh))})
+                jobs.append({"args": a, "out": ctx.path("t_%s%d_%d_%d.ndjson" % (kind, pi, wi, sh))})
     def one(j):
         cmd = [exe, "hist"]
         for k, v in j["args"].items():
